@@ -26,7 +26,7 @@ import re
 from ..model import AnchorMissing, CannotAnalyse, walk_no_nested
 from ..cfg import CFG, fmt_path
 from ..dataflow import names_in, local_defs
-from .common import calls_to, site, key, stmt_of, enclosing, kwarg
+from .common import calls_to, site, key, stmt_of, enclosing, kwarg, holds_at
 
 CV = 'gnpy.tools.convert'
 SS = 'gnpy.tools.service_sheet'
@@ -335,9 +335,10 @@ def r5_errors(ctx):
         nr = node_rows[0]
         cnt = [nm for nm, _, _ in bound_by(pe.node, f'Counter((V_n.city for V_n in {nr} if V_n.city))')] + \
             [nm for nm, _, _ in bound_by(pe.node, f'Counter((V_n.city for V_n in {nr}))')]
-        dup = [n for n in walk_no_nested(pe.node) if isinstance(n, ast.If) and cnt and
-               ast.unparse(n.test) in (f'len({cnt[0]}) != len({nr})', f'len({nr}) != len({cnt[0]})')]
-        ok = len(cnt) == 1 and len(dup) == 1 and any(isinstance(x, ast.Raise) for s_ in dup[0].body for x in ast.walk(s_))
+        # a raise reached exactly when the two sizes differ (guard clause or nesting: read off the structure)
+        dup = [n for n in walk_no_nested(pe.node) if isinstance(n, ast.Raise) and cnt and
+               set(holds_at(n)) & {f'len({cnt[0]}) != len({nr})', f'len({nr}) != len({cnt[0]})'}]
+        ok = len(cnt) == 1 and len(dup) == 1
     ctx.check('R5.errors', f'{site(pe)} duplicate cities', ok, key(pe, 'dup-city'), 'duplicate city names are not rejected')
     ctx.need('R5.errors', 6)
 
